@@ -36,6 +36,35 @@ MUTS = {
     "m7_ts_markers_on_parent_dir": [("src/linters/print_statements/linter.py",
         "        path_str = str(file_path)\n        return any(\n            pattern in path_str\n            for pattern in [\".test.\", \".spec.\", \"test_\", \"_test.\", \"/tests/\", \"/test/\"]",
         "        path_str = str(Path(str(file_path)).parent) + \"/\"\n        return any(\n            pattern in path_str\n            for pattern in [\".test.\", \".spec.\", \"test_\", \"_test.\", \"/tests/\", \"/test/\"]")],
+    # ---- phase 3: cross-file rules, file-header, directive stores, dotted directory names
+    # 8. DRY inline-ignore ranges are stored under the RESOLVED path but looked up under the path as spelled: `# dry: ignore-block` is
+    #    honoured for absolute targets only (not shape-checked: the directive-carrying templates have to catch it)
+    "m8_dry_inline_ranges_resolved_key": [("src/linters/dry/inline_ignore.py",
+        "            self._ignore_ranges[str(file_path)] = ranges\n",
+        "            self._ignore_ranges[str(file_path.resolve())] = ranges\n")],
+    # 9. a target whose name has a "suffix" is taken for a file: the root search for the project directory service.v2 starts at its parent
+    "m9_root_dotted_dir_is_file": [("src/cli/utils.py",
+        "    search_start = first_path if first_path.is_dir() else first_path.parent\n",
+        "    search_start = first_path.parent if first_path.suffix else first_path\n")],
+    # 10. stringly-typed ignore list matched against the resolved path: `lib/` / `**/tests/**` above the project now silence relative
+    #     spellings too and anchored patterns stop matching
+    "m10_stringly_ignore_on_resolved_path": [("src/linters/stringly_typed/ignore_utils.py",
+        "    path_str = str(file_path)\n",
+        "    path_str = str(Path(file_path).resolve())\n")],
+    # 11. file-header `**/dir/**` patterns looked up in the parts of the resolved path (a parent called docs / tests silences the project)
+    "m11_file_header_dir_pattern_resolved": [("src/linters/file_header/linter.py",
+        "            return dir_name in file_path.parts\n",
+        "            return dir_name in file_path.resolve().parts\n")],
+    # 12. the stringly-typed directive check reads the file under a re-spelled path (relative to the cwd's parent): the line directive is
+    #     honoured only for absolute spellings
+    "m12_stringly_directive_content_by_name": [("src/linters/stringly_typed/ignore_checker.py",
+        "        file_content = self._get_file_content(violation.file_path)\n",
+        "        file_content = self._get_file_content(violation.file_path if Path(violation.file_path).is_absolute() else Path(violation.file_path).name)\n")],
+    # 13. stateless-class: a file directly inside a directory called tests is exempt, decided on the parent directory of the path as
+    #     resolved (the project directory's own name / the directory above a top-level file decides)
+    "m13_stateless_tests_dir_resolved_parent": [("src/linters/stateless_class/python_analyzer.py",
+        "        \"/tests/\" in path_str\n",
+        "        \"/tests/\" in path_str\n        or __import__(\"os\").path.realpath(path_str).rsplit(\"/\", 2)[-2] in (\"tests\", \"__tests__\")\n")],
 }
 
 for name, edits in MUTS.items():
